@@ -12,11 +12,11 @@ import (
 // Effects is the syntactic, transitive may-write summary of a function: which heap components it
 // may write at pre-existing indices (W), which only through initialising fresh allocations (A).
 type Effects struct {
-	W, A       map[string]bool
-	Allocs     bool
-	Dynamic    bool     // contains a call through a function value (user callback)
-	Unknown    []string // calls to externals without a model
-	GlobalW    []string // writes through package-level variables (position strings)
+	W, A        map[string]bool
+	Allocs      bool
+	Dynamic     bool     // contains a call through a function value (user callback)
+	Unknown     []string // calls to externals without a model
+	GlobalW     []string // writes through package-level variables (position strings)
 	Unsupported []string // instructions outside the supported subset
 }
 
